@@ -43,16 +43,16 @@ Definition r_where_item (form : where_form) (tr : toks) (t : ty) : toks :=
   match form with
   | WFPlain => ty ++ [TP ":"] ++ tr
   | WFBin true true =>
-      q "for < 'a > & 'a" ++ ty ++ [TP ":"] ++ tr ++ q "< & 'a" ++ ty ++ q ", Output =" ++ ty ++ q ">"
+      q "for < '__a > & '__a" ++ ty ++ [TP ":"] ++ tr ++ q "< & '__a" ++ ty ++ q ", Output =" ++ ty ++ q ">"
   | WFBin true false =>
-      q "for < 'a > & 'a" ++ ty ++ [TP ":"] ++ tr ++ q "<" ++ ty ++ q ", Output =" ++ ty ++ q ">"
+      q "for < '__a > & '__a" ++ ty ++ [TP ":"] ++ tr ++ q "<" ++ ty ++ q ", Output =" ++ ty ++ q ">"
   | WFBin false true =>
-      q "for < 'a >" ++ ty ++ [TP ":"] ++ tr ++ q "< & 'a" ++ ty ++ q ", Output =" ++ ty ++ q ">"
+      q "for < '__a >" ++ ty ++ [TP ":"] ++ tr ++ q "< & '__a" ++ ty ++ q ", Output =" ++ ty ++ q ">"
   | WFBin false false =>
       ty ++ [TP ":"] ++ tr ++ q "<" ++ ty ++ q ", Output =" ++ ty ++ q ">"
-  | WFAssign true => q "for < 'a >" ++ ty ++ [TP ":"] ++ tr ++ q "< & 'a" ++ ty ++ q ">"
+  | WFAssign true => q "for < '__a >" ++ ty ++ [TP ":"] ++ tr ++ q "< & '__a" ++ ty ++ q ">"
   | WFAssign false => ty ++ [TP ":"] ++ tr ++ q "<" ++ ty ++ q ">"
-  | WFUn true => q "for < 'a > & 'a" ++ ty ++ [TP ":"] ++ tr ++ q "< Output =" ++ ty ++ q ">"
+  | WFUn true => q "for < '__a > & '__a" ++ ty ++ [TP ":"] ++ tr ++ q "< Output =" ++ ty ++ q ">"
   | WFUn false => ty ++ [TP ":"] ++ tr ++ q "< Output =" ++ ty ++ q ">"
   end.
 
@@ -196,8 +196,9 @@ Definition r_cmp_expr (op : cmpop) (sk : src_kind) (c : cmp_field) : toks :=
   let other := place_of sk "other" m in
   let call2 (p : toks) (a b : toks) := p ++ tparen (q "&" ++ tparen a ++ q ", &" ++ tparen b) in
   let by_fn (fn_ident : string) (params : toks) (ret : toks) (body : toks) (args : toks) :=
-    tbrace ([TI "fn"; TI fn_ident] ++ params ++ ret ++ tbrace body ++ [TI fn_ident] ++ tparen args) in
-  let reft := q "&" ++ t in
+    tbrace ([TI "fn"; TI fn_ident] ++ q "< __T : ? :: core :: marker :: Sized >" ++ params ++ ret ++
+            tbrace body ++ [TI fn_ident] ++ tparen args) in
+  let reft := q "& __T" in
   let two_refs := reft ++ comma ++ reft in
   match op with
   | CPartialEq =>
@@ -207,7 +208,7 @@ Definition r_cmp_expr (op : cmpop) (sk : src_kind) (c : cmp_field) : toks :=
       | CEKey k => call2 (q ":: core :: cmp :: PartialEq :: eq") (apply_template k this) (apply_template k other)
       | CEBy CPartialOrd b =>
           by_fn fn_ident
-            (tparen (q "this :" ++ reft ++ q ", other :" ++ reft ++ q ", partial_cmp : impl Fn" ++
+            (tparen (q "this :" ++ reft ++ q ", other :" ++ reft ++ q ", partial_cmp : impl :: core :: ops :: Fn" ++
                      tparen two_refs ++ q "->" ++ opt_ordering))
             (q "-> bool")
             (q "partial_cmp ( this , other ) == :: core :: option :: Option :: Some ( :: core :: cmp :: Ordering :: Equal )")
@@ -236,14 +237,14 @@ Definition r_cmp_expr (op : cmpop) (sk : src_kind) (c : cmp_field) : toks :=
                            (apply_template k this) (apply_template k other)
         | CEBy COrd b =>
             by_fn fn_ident
-              (tparen (q "this :" ++ reft ++ q ", other :" ++ reft ++ q ", cmp : impl Fn" ++
+              (tparen (q "this :" ++ reft ++ q ", other :" ++ reft ++ q ", cmp : impl :: core :: ops :: Fn" ++
                        tparen two_refs ++ q "->" ++ ordering))
               (q "->" ++ opt_ordering)
               (q ":: core :: option :: Option :: Some ( cmp ( this , other ) )")
               (q "&" ++ this ++ q ", &" ++ other ++ comma ++ b)
         | CEBy _ b =>
             by_fn fn_ident
-              (tparen (q "this :" ++ reft ++ q ", other :" ++ reft ++ q ", partial_cmp : impl Fn" ++
+              (tparen (q "this :" ++ reft ++ q ", other :" ++ reft ++ q ", partial_cmp : impl :: core :: ops :: Fn" ++
                        tparen two_refs ++ q "->" ++ opt_ordering))
               (q "->" ++ opt_ordering)
               (q "partial_cmp ( this , other )")
@@ -260,7 +261,7 @@ Definition r_cmp_expr (op : cmpop) (sk : src_kind) (c : cmp_field) : toks :=
         | CEKey k => call2 (q ":: core :: cmp :: Ord :: cmp") (apply_template k this) (apply_template k other)
         | CEBy _ b =>
             by_fn fn_ident
-              (tparen (q "this :" ++ reft ++ q ", other :" ++ reft ++ q ", cmp : impl Fn" ++
+              (tparen (q "this :" ++ reft ++ q ", other :" ++ reft ++ q ", cmp : impl :: core :: ops :: Fn" ++
                        tparen two_refs ++ q "->" ++ ordering))
               (q "->" ++ ordering)
               (q "cmp ( this , other )")
@@ -273,9 +274,9 @@ Definition r_cmp_expr (op : cmpop) (sk : src_kind) (c : cmp_field) : toks :=
       | CEDefault _ => q ":: core :: hash :: Hash :: hash" ++ tparen (q "&" ++ tparen this ++ q ", state") ++ q ";"
       | CEKey k => q ":: core :: hash :: Hash :: hash" ++ tparen (q "&" ++ tparen (apply_template k this) ++ q ", state") ++ q ";"
       | CEBy _ b =>
-          tbrace ([TI "fn"; TI fn_ident] ++ q "< H : :: core :: hash :: Hasher >" ++
-                  tparen (q "this :" ++ reft ++ q ", state : & mut H , hash : impl Fn" ++
-                          tparen (reft ++ q ", & mut H")) ++
+          tbrace ([TI "fn"; TI fn_ident] ++ q "< __T : ? :: core :: marker :: Sized , __H : :: core :: hash :: Hasher >" ++
+                  tparen (q "this :" ++ reft ++ q ", state : & mut __H , hash : impl :: core :: ops :: Fn" ++
+                          tparen (reft ++ q ", & mut __H")) ++
                   tbrace (q "hash ( this , state )") ++
                   [TI fn_ident] ++ tparen (q "&" ++ this ++ q ", state ," ++ b))
       end
@@ -312,7 +313,7 @@ Fixpoint index_arms (vs : list (string * shape * list fld)) (i : nat) : toks :=
 (** `build_to_index_fn` *)
 Definition to_index_fn (vs : list (string * shape * list fld)) : toks :=
   q "let to_index = | this : & Self | -> usize" ++
-  tbrace (q "match this" ++ tbrace (index_arms vs 0 ++ q "_ => unreachable ! ( ) ,")) ++ q ";".
+  tbrace (q "match this" ++ tbrace (index_arms vs 0 ++ q "_ => :: core :: unreachable ! ( ) ,")) ++ q ";".
 
 Definition arm_of {A} (x : string * shape * list fld * A) : string * shape * list fld := fst x.
 
@@ -337,14 +338,14 @@ Definition r_cmp_enum (op : cmpop) (vs : list (string * shape * list fld * list 
       q "match self" ++
       tbrace (concat (map (fun x => make_pat [TI "Self"] "_self" (arm_of x) ++ [TP "=>"] ++
                                     tbrace (r_cmp_fields op SKEnum (snd x))) vs) ++
-              q "_ => unreachable ! ( ) ,")
+              q "_ => :: core :: unreachable ! ( ) ,")
   | CEq => []
   end.
 
 Definition r_eq_check (sk : src_kind) (x : fld * eq_check) : toks :=
   let this := place_of sk "this" (fl_member (fst x)) in
   let chk (e : toks) :=
-    tbrace (q "fn _eq < T : Eq + ? Sized > ( _this : & T ) { } _eq" ++ tparen (q "&" ++ tparen e)) in
+    tbrace (q "fn _eq < T : :: core :: cmp :: Eq + ? Sized > ( _this : & T ) { } _eq" ++ tparen (q "&" ++ tparen e)) in
   match snd x with
   | QNone => []
   | QField => chk this
@@ -419,10 +420,10 @@ Definition r_body (h : impl_hdr) (b : body) : toks :=
   | BOrdEnum vs =>
       q "fn cmp ( & self , other : & Self ) ->" ++ ordering ++ tbrace (r_cmp_enum COrd vs)
   | BHashStruct cs =>
-      q "fn hash < H : :: core :: hash :: Hasher > ( & self , state : & mut H )" ++
+      q "fn hash < __H : :: core :: hash :: Hasher > ( & self , state : & mut __H )" ++
       tbrace (r_cmp_fields CHash SKStruct cs)
   | BHashEnum vs =>
-      q "fn hash < H : :: core :: hash :: Hasher > ( & self , state : & mut H )" ++
+      q "fn hash < __H : :: core :: hash :: Hasher > ( & self , state : & mut __H )" ++
       tbrace (r_cmp_enum CHash vs)
   | BEqStruct _ => []
   | BEqEnum _ _ => []
